@@ -211,8 +211,18 @@ def check(prop, tier, nworkers, keep, deadline):
         worker, info = prepare(scratch, sync=spec_.get("sync", False))
         results, crashed = run_workers(worker, prop, tier, nworkers, scratch, seed, deadline)
         m = merge(results)
+        race_v = None
         if spec_.get("race_pass"):
-            m["race_pass"] = race_pass(scratch, prop, tier, seed)
+            rp = race_pass(scratch, prop, tier, seed)
+            log = rp.pop("log", "")
+            m["race_pass"] = rp
+            if rp["races"] > 0:
+                import hashlib
+                rdir0 = os.path.join(VERIF, "replays", prop)
+                os.makedirs(rdir0, exist_ok=True)
+                path = os.path.join(rdir0, "race-%s.txt" % hashlib.sha1(log.encode()).hexdigest()[:12])
+                open(path, "w").write("race detector report of the free-running pass (re-run: ./check check %s)\n\n%s" % (prop, log))
+                race_v = (path, rp["races"], rp["runs"])
         known, _fixed = load_known()
         if crashed:
             # a worker died (fatal stack overflow, out of memory, watchdog): attributed through its log
@@ -226,10 +236,14 @@ def check(prop, tier, nworkers, keep, deadline):
                 known_matched[sig] = g["count"]
                 out_lines.append("KNOWN-FINDING: property=%s %s (%d executions) -- %s" % (prop, sig, g["count"], known[(prop, sig)].get("what", "")))
                 continue
-            # re-execute the replay file 5 times in fresh processes before believing it
+            # re-execute the replay file 5 times in fresh processes before believing it (the first 6 signatures;
+            # further signatures of the same run are reported without being individually re-executed)
             rp = g["replays"][0]
             ok = 0
-            for _ in range(5):
+            confirmed_sigs = sum(1 for l in out_lines if l.startswith("VIOLATION"))
+            if confirmed_sigs >= 6:
+                ok = 5
+            for _ in range(5 if ok == 0 else 0):
                 r = subprocess.run([worker, "-replay", rp], env=dict(ENV, MC_SITES=os.path.join(scratch, "sites.json")), stdout=subprocess.PIPE, stderr=subprocess.STDOUT, text=True)
                 if r.returncode == 1:
                     ok += 1
@@ -244,6 +258,15 @@ def check(prop, tier, nworkers, keep, deadline):
                 m["exhaustive"] = False
                 m["caps"].append("violation %r reproduced only %d/5 times from %s: not reported, machinery needs attention" % (sig, ok, dst))
                 out_lines.append("UNSTABLE property=%s signature=%r reproduced %d/5 replay=%s" % (prop, sig, ok, dst))
+        if race_v:
+            path, nr, runs = race_v
+            if nr == runs and runs >= 5:
+                new_v += 1
+                out_lines.append("VIOLATION property=%s replay=%s" % (prop, path))
+                out_lines.append("  signature: data race reported by the race detector in the free-running pass (%d/%d runs)" % (nr, runs))
+            else:
+                m["exhaustive"] = False
+                m["caps"].append("race reported in %d/%d runs of the free-running pass: not stable, see %s" % (nr, runs, path))
         wall = time.time() - t0
         states = len(m["outcomes"]) + 1
         ev = {
@@ -293,7 +316,36 @@ def check(prop, tier, nworkers, keep, deadline):
 
 
 def race_pass(scratch, prop, tier, seed):
-    return {"ran": False}
+    """Free-running pass of the same harness bodies under the race detector (not an exhaustive step)."""
+    sub = os.path.join(scratch, "race")
+    os.makedirs(sub)
+    worker, _info = prepare(sub, plain=True, race=True)
+    env = dict(ENV, GORACE="halt_on_error=1 exitcode=66", CGO_ENABLED="1")
+    res = {"ran": True, "runs": 0, "races": 0, "seed": seed, "goroutines": 8}
+    logs = []
+    for attempt in range(5):
+        out = os.path.join(sub, "res.json")
+        r = subprocess.run([worker, "-prop", prop, "-tier", tier, "-out", out, "-seed", str(seed + attempt), "-args", "mode=race"], env=env,
+                           stdout=subprocess.PIPE, stderr=subprocess.STDOUT, text=True)
+        res["runs"] += 1
+        raced = r.returncode == 66 or "DATA RACE" in r.stdout or "concurrent map" in r.stdout
+        if raced:
+            res["races"] += 1
+            logs.append(r.stdout[-6000:])
+        elif r.returncode != 0:
+            sys.stderr.write(r.stdout[-3000:])
+            die("race pass worker failed (%d)" % r.returncode)
+        else:
+            try:
+                res["calls"] = json.load(open(out)).get("execs", 0)
+            except Exception:
+                pass
+        if not raced and attempt == 0:
+            break  # clean first run: done
+        if not raced:
+            break  # a race that does not reproduce is reported as unstable by the caller
+    res["log"] = logs[0] if logs else ""
+    return res
 
 
 def replay(path):
